@@ -343,6 +343,14 @@ func (p *Policer) processNodes(ctx context.Context, plc *processPlacementContext
 		}
 	}
 
+	if uncheckedCopies > 0 && plc.localNodeInContainer {
+		// Copies on nodes under maintenance are taken on trust only to prevent
+		// spam with new replicas. They must not make the local copy of a container
+		// node redundant, whatever else is wrong with this list (remaining
+		// shortage, misplaced copies): it may be the only real one.
+		plc.needLocalCopy = true
+	}
+
 	if shortage > 0 {
 		p.metrics.SetPolicerConsistency(false)
 		p.hadReplicaShortage.Store(true)
